@@ -22,6 +22,11 @@ package main
 //	session-cleanup:orphaned-record-of-dead-session   a record carries the id of a session that does not exist (any more)
 //	session-cleanup:empty-key-record-survives  ... and that record is the one under the empty key (session.delete() skips it)
 //	session-cleanup:other-record-touched / session-key-survived
+//
+// Sequence puts under sessions (ephemeral sequential keys) are generated in their own cases, which end sessions
+// atomically only (so that nothing there can be explained by the open O-12 findings); a verdict whose key is a sequence
+// prefix or a generated key carries the suffix ":sequence-put" (e.g. session:shadow-mirror-broken:sequence-put:
+// the shadow entry registered under the prefix instead of the generated key).
 
 import (
 	"fmt"
@@ -114,7 +119,7 @@ func (v *c14View) mirror(viol func(sig, det string)) {
 			if ok {
 				what = r.txt
 			}
-			viol("session:shadow-mirror-broken", fmt.Sprintf("shadow key of session %d for key %s, but the record is %s", id, hexs(key), what))
+			viol("session:shadow-mirror-broken", fmt.Sprintf("shadow key of session %d for key %s, but the record is %s", id, hexs(key), what)+"\x01"+key)
 		}
 	}
 	var ks []string
@@ -131,12 +136,12 @@ func (v *c14View) mirror(viol func(sig, det string)) {
 			if k == "" {
 				viol("session-cleanup:empty-key-record-survives", fmt.Sprintf("the record under the empty key carries session id %d, which does not exist: %s", *r.sess, r.txt))
 			} else {
-				viol("session-cleanup:orphaned-record-of-dead-session", fmt.Sprintf("record %s carries session id %d, which does not exist: %s", hexs(k), *r.sess, r.txt))
+				viol("session-cleanup:orphaned-record-of-dead-session", fmt.Sprintf("record %s carries session id %d, which does not exist: %s", hexs(k), *r.sess, r.txt)+"\x01"+k)
 			}
 			continue
 		}
 		if _, ok := v.shadows[strconv.FormatInt(*r.sess, 10)+"\x00"+k]; !ok {
-			viol("session:shadow-mirror-broken", fmt.Sprintf("record %s of live session %d has no shadow key", hexs(k), *r.sess))
+			viol("session:shadow-mirror-broken", fmt.Sprintf("record %s of live session %d has no shadow key", hexs(k), *r.sess)+"\x01"+k)
 		}
 	}
 }
@@ -155,9 +160,9 @@ func c14CleanupExact(before, after *c14View, id int64, viol func(sig, det string
 		case ownedThen && still && k == "":
 			viol("session-cleanup:empty-key-record-survives", fmt.Sprintf("the record under the empty key, owned by session %d, survived the session's cleanup", id))
 		case ownedThen && still:
-			viol("session-cleanup:orphaned-record-of-dead-session", fmt.Sprintf("record %s owned by session %d when its cleanup was applied is still there: %s", hexs(k), id, r2.txt))
+			viol("session-cleanup:orphaned-record-of-dead-session", fmt.Sprintf("record %s owned by session %d when its cleanup was applied is still there: %s", hexs(k), id, r2.txt)+"\x01"+k)
 		case !ownedThen && !still:
-			viol("session-cleanup:deleted-record-not-owned", fmt.Sprintf("the cleanup of session %d deleted %s = %s, which the session did not own when the cleanup was applied", id, hexs(k), r.txt))
+			viol("session-cleanup:deleted-record-not-owned", fmt.Sprintf("the cleanup of session %d deleted %s = %s, which the session did not own when the cleanup was applied", id, hexs(k), r.txt)+"\x01"+k)
 		case !ownedThen && r2.txt != r.txt:
 			viol("session-cleanup:other-record-touched", fmt.Sprintf("record %s changed from %s to %s", hexs(k), r.txt, r2.txt))
 		}
@@ -181,13 +186,24 @@ func c14CleanupExact(before, after *c14View, id int64, viol func(sig, det string
 
 type c14gen struct {
 	*gen
+	seqCase bool            // the case generates sequence puts (and no two-step session ends)
+	seqKeys map[string]bool // sequence prefixes used and keys generated so far
 	keys    []string // the small key set of the case
 	tag     string
 	viols   map[string]bool // dedup inside one case: signature + detail
 }
 
+// viol: the verdict sink of one request. Verdicts name the key they are about in det after "\x01" (stripped here);
+// if that key is a sequence prefix or a generated key the signature gets the suffix ":sequence-put".
 func (c *c14gen) viol(ctx string) func(sig, det string) {
 	return func(sig, det string) {
+		if i := strings.IndexByte(det, 1); i >= 0 {
+			key := det[i+1:]
+			det = det[:i]
+			if c.seqKeys[key] {
+				sig += ":sequence-put"
+			}
+		}
 		k := sig + "\x00" + det
 		if c.viols[k] {
 			return
@@ -209,6 +225,12 @@ func (c *c14gen) write(w *wreq, cleanupOf int64) {
 		f := strings.Split(res, ":")
 		prs := splitList(f[1], ",")
 		for i, p := range w.puts {
+			if len(p.deltas) > 0 && i < len(prs) && strings.HasPrefix(prs[i], "OK/") {
+				t := strings.Split(prs[i], "/")
+				if gk := t[len(t)-1]; gk != "n" {
+					c.seqKeys[unhexs(gk)] = true
+				}
+			}
 			if p.sess == nil || i >= len(prs) {
 				continue
 			}
@@ -253,8 +275,47 @@ func (c *c14gen) put() putOp {
 	return p
 }
 
+var c14SeqPrefixes = []string{"s", "q/x", "t-0", "a/b"}
+
+// seqPut: a put with sequence deltas (and the partition key it needs), mostly under a session
+func (c *c14gen) seqPut() putOp {
+	prefix := hx.Pick(c.rng, c14SeqPrefixes)
+	n := c.seqParts[prefix]
+	if n == 0 {
+		n = 1 + c.rng.Intn(2)
+		c.seqParts[prefix] = n
+	}
+	p := putOp{key: prefix, value: []byte("seq"), part: pstr("pk")}
+	for i := 0; i < n; i++ {
+		p.deltas = append(p.deltas, uint64(1+c.rng.Intn(3)))
+	}
+	if c.rng.Chance(75) {
+		p.sess = p64(c.anySession())
+	}
+	if c.rng.Chance(20) {
+		p.idx = c.indexes()
+	}
+	c.seqKeys[prefix] = true
+	c.o.Count("c14:sequence-put")
+	return p
+}
+
 func (c *c14gen) request() *wreq {
 	w := &wreq{}
+	if c.seqCase && c.rng.Chance(45) {
+		w.puts = append(w.puts, c.seqPut())
+		if c.rng.Chance(30) { // a record sitting exactly at a prefix key (plain, or ephemeral of some session)
+			p := putOp{key: hx.Pick(c.rng, c14SeqPrefixes), value: []byte("at-prefix")}
+			if c.rng.Chance(40) {
+				p.sess = p64(c.anySession())
+			}
+			w.puts = append(w.puts, p)
+		}
+		if c.rng.Chance(30) {
+			w.puts = append(w.puts, c.seqPut())
+		}
+		return w
+	}
 	if c.rng.Chance(15) { // several operations on one key in one batch, sessions mixed
 		k := c.key()
 		for i, n := 0, 2+c.rng.Intn(3); i < n; i++ {
@@ -410,7 +471,7 @@ func (c *c14gen) bulkEphemeral(n int) {
 
 func c14NewGen(o *hx.Out, r *runner, rng *hx.Rng, tag string, keys []string) *c14gen {
 	g := &gen{rng: rng, r: r, o: o, off: -1, ts: 1000 + uint64(rng.Intn(100000)), seqParts: map[string]int{}}
-	return &c14gen{gen: g, keys: keys, tag: tag, viols: map[string]bool{}}
+	return &c14gen{gen: g, keys: keys, tag: tag, viols: map[string]bool{}, seqKeys: map[string]bool{}}
 }
 
 // the witnesses of Properties/C14.v (c14_cleanup_exact_refuted_*, c14_empty_key_orphan_refuted), run first
@@ -428,6 +489,21 @@ func c14Witnesses(o *hx.Out) {
 			r.do("D")
 		})
 	}
+	stag := "witness#sequence-put"
+	runCase(o, "seq", 1, false, stag, stag, func(r *runner) {
+		c := c14NewGen(o, r, hx.NewRng(6), stag, []string{"a"})
+		c.seqCase = true
+		c.seqKeys["s"] = true
+		id := c.create()
+		other := c.create()
+		c.write(&wreq{puts: []putOp{{key: "s", value: []byte("plain-at-prefix")}}}, -1)
+		sp := func(sess *int64) putOp { return putOp{key: "s", value: []byte("seq"), part: pstr("pk"), deltas: []uint64{1}, sess: sess} }
+		c.write(&wreq{puts: []putOp{sp(p64(id))}}, -1)
+		c.write(&wreq{puts: []putOp{sp(p64(other)), sp(nil), sp(p64(id))}}, -1)
+		c.closeAtomic(id)
+		c.closeAtomic(other)
+		r.do("D")
+	})
 	tag := "witness#empty-key"
 	runCase(o, "seq", 1, false, tag, tag, func(r *runner) {
 		c := c14NewGen(o, r, hx.NewRng(5), tag, []string{"a"})
@@ -454,6 +530,10 @@ func c14Main(o *hx.Out, f hx.Flags) {
 		flavour := crng.Intn(12)
 		runCase(o, "seq", shard, false, tag, fmt.Sprintf("%d", crng.U64()), func(r *runner) {
 			c := c14NewGen(o, r, crng, tag, keys)
+			c.seqCase = flavour >= 8 // a third of the cases: ephemeral sequential keys, atomic session ends only
+			if c.seqCase {
+				o.Count("c14:case-with-sequence-puts")
+			}
 			if crng.Chance(30) {
 				r.do(fmt.Sprintf("T:%d:%d", 1+crng.Intn(5), crng.Intn(2)))
 			}
@@ -464,8 +544,10 @@ func c14Main(o *hx.Out, f hx.Flags) {
 					c.create()
 				case x < 17:
 					c.closeAtomic(c.sessionToClose())
-				case x < 27:
+				case x < 27 && !c.seqCase:
 					c.closeTwoStep(c.sessionToClose(), -1)
+				case x < 27:
+					c.closeAtomic(c.sessionToClose())
 				case x < 30:
 					r.do(fmt.Sprintf("T:%d:%d", 2+i, crng.Intn(2))) // leader change: the DB keeps sessions and shadows
 				case x < 33:
